@@ -449,7 +449,8 @@ class LinearLeastSquares(App):
             if self.G is None:
                 v = self.x.copy()
             else:
-                v = self.G(self.x)
+                # Not a view of x: G(x) can be x itself (e.g. G = Identity).
+                v = self.G(self.x).copy()
 
             u = xp.zeros_like(v)
 
